@@ -1,1 +1,170 @@
-fn main(){}
+//! The executable every generated command runs. Looks its behaviour up in the
+//! case's plan file and leaves start/end trace records with CLOCK_MONOTONIC
+//! time stamps (system-wide on Linux, hence comparable across processes).
+
+use serde_json::{json, Value};
+use std::io::Write;
+use std::path::{Path, PathBuf};
+use std::time::{Duration, Instant};
+
+fn monotonic_ns() -> u128 {
+    let mut ts = libc::timespec {
+        tv_sec: 0,
+        tv_nsec: 0,
+    };
+    unsafe {
+        libc::clock_gettime(libc::CLOCK_MONOTONIC, &mut ts);
+    }
+    (ts.tv_sec as u128) * 1_000_000_000 + ts.tv_nsec as u128
+}
+
+fn write_atomic(dir: &Path, name: &str, v: &Value) {
+    let tmp = dir.join(format!(".{}.tmp", name));
+    let dst = dir.join(name);
+    if std::fs::write(&tmp, serde_json::to_vec(v).unwrap()).is_ok() {
+        let _ = std::fs::rename(&tmp, &dst);
+    }
+}
+
+fn unhex(s: &str) -> Vec<u8> {
+    let b = s.as_bytes();
+    let mut out = Vec::with_capacity(b.len() / 2);
+    let val = |c: u8| match c {
+        b'0'..=b'9' => c - b'0',
+        b'a'..=b'f' => c - b'a' + 10,
+        b'A'..=b'F' => c - b'A' + 10,
+        _ => 0,
+    };
+    let mut i = 0;
+    while i + 1 < b.len() {
+        out.push(val(b[i]) << 4 | val(b[i + 1]));
+        i += 2;
+    }
+    out
+}
+
+fn run_script(steps: Vec<Value>, mut sink: Box<dyn Write + Send>) -> bool {
+    // returns false if a write failed (e.g. closed pipe)
+    let mut ok = true;
+    for s in steps {
+        if let Some(h) = s.get("w").and_then(|x| x.as_str()) {
+            let bytes = unhex(h);
+            if sink.write_all(&bytes).is_err() || sink.flush().is_err() {
+                ok = false;
+                break;
+            }
+        } else if let Some(ms) = s.get("p").and_then(|x| x.as_u64()) {
+            std::thread::sleep(Duration::from_millis(ms));
+        }
+    }
+    ok
+}
+
+fn main() {
+    // a closed pipe must surface as a write error, not kill us silently
+    unsafe {
+        libc::signal(libc::SIGPIPE, libc::SIG_IGN);
+    }
+    let start_ns = monotonic_ns();
+    let args: Vec<String> = std::env::args().collect();
+    let exe = args.get(1).cloned().unwrap_or_default();
+    let argv: Vec<String> = args.iter().skip(2).cloned().collect();
+    let cwd = std::env::current_dir()
+        .map(|p| p.display().to_string())
+        .unwrap_or_default();
+    let trace_dir = PathBuf::from(std::env::var("MRV_TRACE").unwrap_or_else(|_| ".".into()));
+    let pid = std::process::id();
+    let id = format!("{}-{}", pid, start_ns);
+
+    let plan: Value = std::env::var("MRV_PLAN")
+        .ok()
+        .and_then(|p| std::fs::read(p).ok())
+        .and_then(|b| serde_json::from_slice(&b).ok())
+        .unwrap_or(Value::Null);
+    let key = format!("{}|{}", exe, cwd);
+    let beh = plan
+        .get("entries")
+        .and_then(|e| e.get(&key))
+        .cloned()
+        .unwrap_or(Value::Null);
+
+    let barrier = beh.get("barrier").cloned();
+    write_atomic(
+        &trace_dir,
+        &format!("{}.start.json", id),
+        &json!({
+            "pid": pid, "exe": exe, "cwd": cwd, "argv": argv, "start_ns": start_ns.to_string(),
+            "planned": !beh.is_null(),
+        }),
+    );
+
+    let mut exit_code = beh.get("exit").and_then(|x| x.as_i64()).unwrap_or(0) as i32;
+    let mut barrier_timeout = false;
+    let mut write_failed = false;
+
+    if let Some(b) = barrier.as_ref().filter(|b| !b.is_null()) {
+        let bkey = b.get("key").and_then(|x| x.as_str()).unwrap_or("b").to_string();
+        let n = b.get("n").and_then(|x| x.as_u64()).unwrap_or(1) as usize;
+        let timeout = Duration::from_millis(b.get("timeout_ms").and_then(|x| x.as_u64()).unwrap_or(30_000));
+        let prefix = format!("barrier-{}-", bkey);
+        let _ = std::fs::write(trace_dir.join(format!("{}{}", prefix, id)), b"");
+        let t0 = Instant::now();
+        loop {
+            let count = std::fs::read_dir(&trace_dir)
+                .map(|rd| {
+                    rd.flatten()
+                        .filter(|e| e.file_name().to_string_lossy().starts_with(&prefix))
+                        .count()
+                })
+                .unwrap_or(0);
+            if count >= n {
+                break;
+            }
+            if t0.elapsed() > timeout {
+                barrier_timeout = true;
+                exit_code = 97;
+                break;
+            }
+            std::thread::sleep(Duration::from_millis(2));
+        }
+    }
+    if let Some(g) = beh.get("gate").and_then(|x| x.as_str()) {
+        let t0 = Instant::now();
+        while !Path::new(g).exists() {
+            if t0.elapsed() > Duration::from_secs(120) {
+                exit_code = 98;
+                break;
+            }
+            std::thread::sleep(Duration::from_millis(2));
+        }
+    }
+    if let Some(ms) = beh.get("sleep_ms").and_then(|x| x.as_u64()) {
+        if ms > 0 {
+            std::thread::sleep(Duration::from_millis(ms));
+        }
+    }
+    let out_steps = beh.get("out").and_then(|x| x.as_array()).cloned().unwrap_or_default();
+    let err_steps = beh.get("err").and_then(|x| x.as_array()).cloned().unwrap_or_default();
+    if !out_steps.is_empty() || !err_steps.is_empty() {
+        let h1 = std::thread::spawn(move || run_script(out_steps, Box::new(std::io::stdout())));
+        let h2 = std::thread::spawn(move || run_script(err_steps, Box::new(std::io::stderr())));
+        let ok1 = h1.join().unwrap_or(false);
+        let ok2 = h2.join().unwrap_or(false);
+        write_failed = !(ok1 && ok2);
+    }
+    if let Some(ms) = beh.get("sleep_after_ms").and_then(|x| x.as_u64()) {
+        if ms > 0 {
+            std::thread::sleep(Duration::from_millis(ms));
+        }
+    }
+    let end_ns = monotonic_ns();
+    write_atomic(
+        &trace_dir,
+        &format!("{}.end.json", id),
+        &json!({
+            "pid": pid, "end_ns": end_ns.to_string(), "exit_code": exit_code,
+            "barrier_timeout": barrier_timeout, "write_failed": write_failed,
+        }),
+    );
+    std::process::exit(exit_code);
+}
